@@ -1,6 +1,7 @@
 // C10 monitor skeleton shared by the image units c10_img_{a,b,c}.cpp.
-// Case space of one unit:  [0,R) corpus v0 image i · [R,2R) corpus v1 image i · [2R,2R+X) extras (shipped images, synthesised
-// legacy images) · the rest: generated (family, state) decode-vs-API cases.
+// Case space of one unit:  [0,R) corpus v0 image i · [R,2R) corpus v1 image i · then the shipped reference images of the unit's
+// families · then the unit's extras (synthesised legacy images, cross-language hash checks) · the rest: generated (family, state)
+// decode-vs-API cases.
 #ifndef VF_C10_MONITOR_HPP
 #define VF_C10_MONITOR_HPP
 
@@ -22,18 +23,37 @@ inline const std::vector<Recipe>& unit_recipes() {
 
 inline uint64_t img_hash(const std::string& s) { uint64_t h = 0x1234; for (unsigned char ch : s) h = (h ^ ch) * 0x100000001b3ULL; return mix64(h, s.size()); }
 
+// names listed in corpus/<gen>/MANIFEST.txt (written by the generator: recipes that ran to completion on that tree)
+inline const std::set<std::string>& manifest(const std::string& gen) {
+  static std::map<std::string, std::set<std::string>> m;
+  auto it = m.find(gen);
+  if (it != m.end()) return it->second;
+  std::set<std::string>& out = m[gen];
+  std::string txt;
+  if (read_file(verif_root() + "/corpus/" + gen + "/MANIFEST.txt", txt)) {
+    std::istringstream is(txt); std::string line;
+    while (std::getline(is, line)) { if (line.empty() || line[0] == '#') continue; out.insert(line.substr(0, line.find(' '))); }
+  }
+  return out;
+}
+
 inline void corpus_case(const Recipe& rc, const char* gen) {
   const std::string base = verif_root() + "/corpus/" + gen + "/" + rc.name;
   describe(std::string("corpus ") + gen + " image " + rc.name);
   const std::string G = gen, F = rc.fam->name;
   std::string img, want;
+  if (manifest(G).empty()) {
+    // absent generation (e.g. v1 not yet regenerated): the coverage floor makes the run inconclusive
+    count("corpus_" + G + "_absent");
+    return;
+  }
+  if (!manifest(G).count(rc.name)) {
+    // recipe did not complete on the tree that wrote this generation (known-broken state of the pinned tree)
+    count("corpus_" + G + "_recipe_not_in_manifest");
+    return;
+  }
   if (!read_file(base + ".bin", img) || !read_file(base + ".json", want)) {
-    if (G == "v1") {
-      // v1 is (re)generated after the fix: commits; absent corpus => the floor reports the run inconclusive
-      count("corpus_v1_absent");
-      return;
-    }
-    checked(); fail("corpus|" + G + "|file-missing", base + ".bin/.json cannot be read (run harness/c10_gen_corpus, see its header comment)");
+    checked(); fail("corpus|" + G + "|file-missing", base + ".bin/.json listed in MANIFEST.txt cannot be read (see the header comment of harness/c10_gen_corpus.cpp)");
     return;
   }
   for (int stream = 0; stream < 2; ++stream) {
@@ -70,6 +90,25 @@ inline void corpus_case(const Recipe& rc, const char* gen) {
   sig(mix64(img_hash(img), G == "v1"));
 }
 
+inline void shipped_case(const Shipped& sh) {
+  describe("shipped image " + sh.name);
+  std::string img, want;
+  const std::string path = repo_root() + "/" + sh.relpath;
+  if (!read_file(path, img)) { checked(); fail("shipped|file-missing", path); return; }
+  if (!read_file(verif_root() + "/corpus/shipped/" + sh.name + ".json", want)) { checked(); fail("shipped|recorded-readout-missing", sh.name); return; }
+  for (int stream = 0; stream < 2; ++stream) {
+    const std::string P = stream ? "stream" : "bytes";
+    try {
+      const std::string got = sh.read(img, stream != 0);
+      const std::string diff = readout_diff(want, got);
+      VF_CHECK(diff.empty(), "shipped|" + sh.family + "|" + P + "|readout-differs-from-recorded", sh.name + ": " + diff);
+    } catch (const std::exception& e) { checked(); fail("shipped|" + sh.family + "|" + P + "|deserialize-threw", sh.name + ": " + e.what()); }
+    count("shipped_" + P + "_path");
+  }
+  count("shipped_" + sh.family);
+  sig(img_hash(img));
+}
+
 inline void decode_case_random(uint64_t idx, Rng& r) {
   const std::vector<Family>& fs = families();
   const Family& f = fs[idx % fs.size()];
@@ -93,15 +132,17 @@ const char* property_id() { return "C10"; }
 unsigned case_timeout_s() { return 300; }
 uint64_t num_cases(bool thorough) {
   const auto& rc = c10::unit_recipes();
-  return 2 * rc.size() + c10::extras().size() + c10::random_cases(thorough);
+  return 2 * rc.size() + c10::shipped().size() + c10::extras().size() + c10::random_cases(thorough);
 }
 void final_report() {}
 void run_case(uint64_t idx, Rng& r) {
   const auto& rc = c10::unit_recipes();
-  const uint64_t R = rc.size(), X = c10::extras().size();
+  const uint64_t R = rc.size(), S = c10::shipped().size(), X = c10::extras().size();
   { uint16_t one = 1; uint8_t lo; memcpy(&lo, &one, 1); if (lo != 1) { fail("harness|host-not-little-endian", "decoders assume a little-endian host"); return; } }
   if (idx < R) { c10::corpus_case(rc[idx], "v0"); return; }
   if (idx < 2 * R) { c10::corpus_case(rc[idx - R], "v1"); return; }
+  if (idx < 2 * R + S) { c10::shipped_case(c10::shipped()[idx - 2 * R]); return; }
+  idx -= S;
   if (idx < 2 * R + X) {
     const c10::Extra& e = c10::extras()[idx - 2 * R];
     describe("extra " + e.name);
